@@ -254,7 +254,7 @@ ADDED = {
     "C08": "Also in the search: names that are prefixes of one another, inserting handles of another file (refused), "
            "Vgetnext against the member list, names longer than 65535 characters (refused, nothing changes). Vgetvgroups on a vgroup: windows (start, n) and counts agree with the whole list, which follows the member order.",
     "C09": "Also in the search: little-endian number types, sub-sampled writes, sub-sampled region reads of legacy RLE images, "
-           "image names that are prefixes of one another. Palette reads without a requested interlace (what was asked for last in this open of the file, else pixel).",
+           "image names that are prefixes of one another. Palette reads without a requested interlace (what was asked for last in this open of the file, else pixel). GRsetchunk asked of images that are compressed or chunked already and hold data: the id goes on working, the pixels stay.",
     "C10": "Also in the search: 8-bit character attributes, dimension names that are prefixes or word permutations of one "
            "another, datasets sharing a dimension created in either order, refused SDsetdimname (size conflict) and "
            "SDsetdimscale (wrong count) that must change nothing. Vdata/Vgroup attributes with the little-endian variant of a type (a re-set that differs only in byte order is refused, the old value stays); a scale on an unlimited dimension stays what was set while the dataset grows.",
